@@ -284,7 +284,7 @@ def main(tier):
     rep = Report(PID, tier)
     rep.functions = src_hash(dl.distance, dl.distance_haversine_radians, dl.bearing_radians, dl.destination_radians, dl.distance_point_to_segment,
                              dl.box_around_point)
-    budget = 150 if tier == 'quick' else 1500
+    budget = 150 if tier == 'quick' else 900
     TIMEOUT_MS[0] = 8000 if tier == 'quick' else 60000
     res = run_instances(run_instance, [(k, budget) for k in ('distance', 'destination', 'dps', 'dps_swap', 'box', 'dps_equator', 'dps_equator_swap', 'dps_meridian', 'dps_near_start', 'dps_near_end')])
     rep.bounds = dict(domain="all latitudes in [-90,90] and longitudes (angles as exact (sin,cos) pairs); destination: distance in (0, pi R); box: radius < ~10 km, |lat| < 60 deg",
